@@ -20,10 +20,9 @@ def run(ctx):
         ("C05_2x2_sim", 2, 2, "simulate", 40 if not thorough else 120, 12),
         ("C05_2x2_d3", 2, 2, "simulate", 100 if not thorough else 1200, 3)   # BFS = 1.3 M histories: sampled,
     ]
-    if thorough:
-        runs.append(("C05_2x1_d4", 2, 1, "bfs", None, None))
-    else:
-        runs.append(("C05_2x1_d4", 2, 1, "simulate", 400, 4))
+    # (BFS of C05_2x1_d4 is 6.9 x 10^5 histories, each decoded after every step: sampled in
+    # both tiers; ReplayMatches is still checked by TLC on every generated state)
+    runs.append(("C05_2x1_d4", 2, 1, "simulate", 400 if not thorough else 3000, 4))
     for cfg, K, M, mode, num, depth in runs:
         r = ctx.generate("RoaringHist", cfg, mode=mode, num=num, depth=depth, timeout=1200)
         ctx.drive("bind/roaringb", "TestC05", beh=r.behaviours, env={"VERIF_K": K, "VERIF_M": M},
